@@ -575,8 +575,10 @@ def run(ctx):
         except UnicodeEncodeError:
             charset = "utf-8"
             raw = text.encode("utf-8")
+        # parameter names are case-insensitive (RFC 9110 8.3.1)
+        pname = ("charset", "Charset", "CHARSET", "charset")[i % 4]
         ctype = JSON_TYPES[i % 3] + \
-            ("; charset=%s" % charset if charset else "")
+            ("; %s=%s" % (pname, charset) if charset else "")
         keys = (list(val)[:4] if isinstance(val, dict) else []) + [ABSENT]
         cfg = {}
         if i % 5 == 3:
